@@ -5,7 +5,7 @@ from . import NasSecLib as L
 
 
 def send(rng, hdr, short, avail=True, newctx=False, pdu=None):
-    return {"op": "send", "pdu": (pdu if pdu is not None else L.pick_msg(rng, short)).hex(), "hdr": hdr, "avail": avail, "newctx": newctx}
+    return {"op": "send", "pdu": (pdu if pdu is not None else L.pick_msg(rng, short, gsm=True)).hex(), "hdr": hdr, "avail": avail, "newctx": newctx}
 
 
 def history(rng, ia, ea, kind, nsend, lead_newctx):
